@@ -238,6 +238,7 @@ func (g *gen) importOf(c cand, bad bool) ImportSpec {
 	case kMem:
 		mm := c.ex.m
 		im.Min = mm.pages
+		im.Shared = mm.shared
 		switch g.n(0, 5, "mem-min") {
 		case 0:
 			if im.Min > 0 {
@@ -263,13 +264,21 @@ func (g *gen) importOf(c cand, bad bool) ImportSpec {
 				im.Max = int64(mm.effMax)
 			}
 		}
-		if bad {
+		if im.Shared && im.Max < 0 { // a shared memory type needs a maximum
+			im.Max = int64(mm.effMax)
+		}
+		if bad && g.pct(30, "bad-mem-shared") {
+			im.Shared = !im.Shared
+			if im.Shared && im.Max < 0 {
+				im.Max = int64(mm.effMax)
+			}
+		} else if bad {
 			if g.pct(50, "bad-mem-min") && mm.pages+1 <= g.m.limit {
 				im.Min = mm.pages + 1
 				if im.Max >= 0 && int64(im.Min) > im.Max {
 					im.Max = int64(im.Min)
 				}
-				if im.Max >= 0 && g.m.effMax(im.Max) < mm.effMax {
+				if im.Max >= 0 && g.m.effMax(im.Max) < mm.effMax && !im.Shared {
 					im.Max = noMax
 				}
 			} else if mm.effMax >= 1 {
@@ -279,6 +288,9 @@ func (g *gen) importOf(c cand, bad bool) ImportSpec {
 				}
 			} else { // a memory with max 0: the only incompatible type is a bigger minimum
 				im.Min, im.Max = 1, noMax
+				if im.Shared {
+					im.Max = 1
+				}
 			}
 		}
 		if im.Max >= 0 && int64(im.Min) > im.Max {
@@ -306,6 +318,7 @@ func (g *gen) genSpec(k int) *ModSpec {
 		badIdx = g.n(0, nImp-1, "bad-import-index")
 	}
 	hasMemImport := false
+	tailImported := false
 	for i := 0; i < nImp; i++ {
 		var kinds []byte
 		for _, kk := range []byte{kGlobal, kGlobal, kGlobal, kTable, kTable, kMem, kMem, kFunc, kFunc} {
@@ -317,8 +330,24 @@ func (g *gen) genSpec(k int) *ModSpec {
 			break
 		}
 		kk := pick(g, kinds, "import-kind")
+		// functions that end in a tail call through a table are worth importing: calling them from
+		// here makes a chain entry -> other instance -> tail call -> third place
+		var tailers []cand
+		for _, x := range by[kFunc] {
+			if x.ex.f.tail != nil && x.ex.f.tail.K == "ricall" {
+				tailers = append(tailers, x)
+			}
+		}
+		if len(tailers) > 0 && !tailImported && g.pct(50, "import-a-tail-caller") {
+			kk, tailImported = kFunc, true
+		} else {
+			tailers = nil
+		}
 		c := pick(g, by[kk], "import-target")
-		if kk == kFunc && g.pct(40, "prefer-re-export") {
+		if tailers != nil {
+			c = pick(g, tailers, "tail-caller")
+		}
+		if kk == kFunc && tailers == nil && g.pct(40, "prefer-re-export") {
 			// functions that are imports in the exporting instance: resolution has to follow the chain
 			var re, deep []cand
 			for _, x := range by[kFunc] {
@@ -369,6 +398,9 @@ func (g *gen) genSpec(k int) *ModSpec {
 			min = g.m.limit
 		}
 		s.Mem = &MemSpec{Min: min, Max: max}
+		if max >= 0 && g.pct(20, "shared-memory") {
+			s.Mem.Shared = true
+		}
 	}
 	for i, n := 0, g.n(0, 2, "n-tables"); i < n; i++ {
 		t := TableSpec{Elem: wasmenc.FuncRef, Min: uint32(g.n(0, 3, "table-min")), Max: noMax}
@@ -467,9 +499,9 @@ func (g *gen) genSpec(k int) *ModSpec {
 		}
 		return pick(g, opts, label)
 	}
-	genOp := func(label string, callable int) (Op, bool) {
+	genOp := func(label string, callees []int) (Op, bool) {
 		var kinds []string
-		if callable > 0 {
+		if len(callees) > 0 {
 			kinds = append(kinds, "call", "call")
 		}
 		if len(mutInt) > 0 {
@@ -489,7 +521,7 @@ func (g *gen) genSpec(k int) *ModSpec {
 		}
 		switch kk := pick(g, kinds, label); kk {
 		case "call":
-			return Op{K: kk, A: int64(g.n(0, callable-1, label+"-callee"))}, true
+			return Op{K: kk, A: int64(pick(g, callees, label+"-callee"))}, true
 		case "gsetf":
 			return Op{K: kk, A: int64(pick(g, mutFuncref, label+"-global")), C: int64(g.n(0, nF, label+"-func"))}, true
 		case "ginc":
@@ -505,17 +537,41 @@ func (g *gen) genSpec(k int) *ModSpec {
 			return Op{K: kk, A: int64(ti), B: int64(g.n(0, tsize(ti)+0, label+"-slot")), C: int64(g.n(0, nF, label+"-func"))}, true
 		}
 	}
+	fsig := append([]int{}, v.fsig[:v.nIF]...) // signatures of the functions callable so far
+	resultClass := func(sg int) int {          // signatures with equal result types may tail-call each other
+		if sg == 1 {
+			return 0
+		}
+		return sg
+	}
 	for i := 0; i < nFuncs; i++ {
-		f := FuncSpec{Sig: pick(g, []int{0, 0, 0, 1, 2, 3}, "func-sig"), ID: int64(k+1)*100 + int64(i) + 1}
+		f := FuncSpec{Sig: pick(g, []int{0, 0, 0, 1, 1, 1, 2, 3}, "func-sig"), ID: int64(k+1)*100 + int64(i) + 1}
+		// callees keep every call chain finite: see FuncSpec
+		var callees, tails []int
+		for ci, cs := range fsig {
+			if f.Sig != 0 || cs == 0 {
+				callees = append(callees, ci)
+				if resultClass(cs) == resultClass(f.Sig) {
+					tails = append(tails, ci)
+				}
+			}
+		}
 		for j, n := 0, g.n(0, 2, "n-ops"); j < n; j++ {
-			if o, ok := genOp("func-op", v.nIF+i); ok {
+			if o, ok := genOp("func-op", callees); ok {
 				f.Ops = append(f.Ops, o)
 			}
 		}
-		if g.pct(4, "func-traps") {
+		switch {
+		case g.pct(4, "func-traps"):
 			f.Ops = append(f.Ops, Op{K: "trap"})
+		case f.Sig == 1 && len(ftables) > 0 && g.pct(70, "tail-indirect"):
+			ti := pick(g, ftables, "tail-table")
+			f.Tail = &Op{K: "ricall", A: int64(ti), B: int64(g.n(0, tsize(ti), "tail-slot")), C: 0}
+		case len(tails) > 0 && g.pct(25, "tail-direct"):
+			f.Tail = &Op{K: "rcall", A: int64(pick(g, tails, "tail-callee"))}
 		}
 		s.Funcs = append(s.Funcs, f)
+		fsig = append(fsig, f.Sig)
 	}
 
 	// ---- active element segments (always in bounds: see the excluded classes in check.json) ----
@@ -609,7 +665,11 @@ func (g *gen) genSpec(k int) *ModSpec {
 	if g.pct(25, "has-start") {
 		st := &StartSpec{Trap: g.pct(50, "start-traps")}
 		for j, n := 0, g.n(1, 3, "n-start-ops"); j < n; j++ {
-			if o, ok := genOp("start-op", nF); ok {
+			all := make([]int, nF)
+			for ci := range all {
+				all[ci] = ci
+			}
+			if o, ok := genOp("start-op", all); ok {
 				st.Ops = append(st.Ops, o)
 			}
 		}
@@ -686,6 +746,85 @@ func (g *gen) instStep(specIdx int, as string, bytesPct int) {
 	if g.pct(35, "gc-after-failure") {
 		g.c.Script = append(g.c.Script, Step{Op: "gc"})
 	}
+}
+
+// chainCall emits a call chain that crosses instances before it tail-calls: instance X is
+// entered through the API and calls a function g (usually imported from another instance Y)
+// that ends in return_call_indirect through a table; some instance W (preferably X itself)
+// first puts one of its own side-effecting functions into that slot. The callee must run on
+// W's state although the frame that issued the tail call belongs to Y and the call entered in X.
+func (g *gen) chainCall() bool {
+	type cand struct {
+		x *mInst
+		i int
+		f *mFunc
+	}
+	var far, near []cand
+	for _, n := range g.m.order {
+		x := g.m.live[n]
+		for i, f := range x.funcs {
+			if f.tail == nil || f.tail.K != "ricall" || int(f.tail.B) >= len(f.def.tables[f.tail.A].fn) {
+				continue
+			}
+			if f.def != x {
+				far = append(far, cand{x, i, f})
+			} else {
+				near = append(near, cand{x, i, f})
+			}
+		}
+	}
+	var c cand
+	switch {
+	case len(far) > 0 && (len(near) == 0 || g.pct(85, "chain-crosses-instances")):
+		c = pick(g, far, "chain-entry")
+	case len(near) > 0:
+		c = pick(g, near, "chain-entry-near")
+	default:
+		return false
+	}
+	t := c.f.def.tables[c.f.tail.A]
+	slot := uint64(c.f.tail.B)
+	type wr struct {
+		w      *mInst
+		iw, fi int
+	}
+	var own, ownEff, xs []wr
+	for _, n := range g.m.order {
+		w := g.m.live[n]
+		iw := indexOf(w, t)
+		if iw < 0 {
+			continue
+		}
+		for fi := w.v.nIF; fi < len(w.funcs); fi++ {
+			if w.funcs[fi].sig != 0 {
+				continue
+			}
+			e := wr{w, iw, fi}
+			own = append(own, e)
+			if len(w.funcs[fi].ops) > 0 {
+				ownEff = append(ownEff, e)
+				if w == c.x {
+					xs = append(xs, e)
+				}
+			}
+		}
+	}
+	if len(own) > 0 {
+		e := pick(g, own, "chain-target")
+		if len(ownEff) > 0 && g.pct(85, "chain-target-effectful") {
+			e = pick(g, ownEff, "chain-target-eff")
+		}
+		if len(xs) > 0 && g.pct(60, "chain-target-in-entry-instance") {
+			e = pick(g, xs, "chain-target-entry")
+		}
+		set := Step{Op: "acc", Inst: e.w.name, Acc: "tsetf", Idx: e.iw, Args: []uint64{slot, uint64(e.fi + 1)}}
+		g.c.Script = append(g.c.Script, set)
+		g.m.eval(set)
+	}
+	call := Step{Op: "acc", Inst: c.x.name, Acc: pick(g, []string{"call", "call", "rcall"}, "chain-call-form"), Idx: c.i}
+	g.c.Script = append(g.c.Script, call)
+	g.m.eval(call)
+	return true
 }
 
 type zombie struct {
@@ -1066,6 +1205,7 @@ func genCase(t *rapid.T) *Case {
 			}
 			g.instStep(k, as, 10) // mostly the same CompiledModule instantiated again
 		case g.pct(10, "sibling-call") && g.siblingCall():
+		case g.pct(15, "chain-call") && g.chainCall():
 		case len(g.zombies) > 0 && g.pct(15, "zombie-call") && g.zombieCall():
 		case g.pct(3, "gc"):
 			g.c.Script = append(g.c.Script, Step{Op: "gc"})
